@@ -5,6 +5,7 @@ symbolic values a, b of one variant:  a == b  =>  H(a) == H(b), where H is a det
 defined in the harness.  Plus: hashing terminates without panic for every variant a set literal can contain, and the
 bookkeeping of `MechSet::from_vec` (num_elements == number of distinct elements, kind == element kind).
 """
+import os
 from ..model import H
 from .common import *
 
@@ -218,7 +219,11 @@ def plan(tier, seed):
     hs.append(gen_total("index_all", "Value::IndexAll", "Value::IndexAll", "thorough"))
     pre = {WHERE: PRELUDE}
     sizes = [(2, 0), (0, 2), (1, 1), (2, 1), (1, 2), (2, 2), (0, 0)]
-    for n, op in enumerate(SETOPS):
+    # Measured: no verdict in 10 min / 10 GB even for |A| = 2, |B| = 0.  IndexSet keeps its elements in a heap vector; CBMC
+    # loses the enum tag of a heap-resident `Value` during symbolic execution and walks `impl Hash for Value` for all ~50
+    # variants (each through SipHash) on every insert/lookup.  The generator is kept for the record; the harnesses are not
+    # part of the claim (see "outside").
+    for n, op in enumerate(SETOPS if os.environ.get("VERIF_C14_SETOPS") else []):
         relp = SETOPS[op][0]
         pre[("set", relp)] = SET_PRELUDE
         for k, (na, nb) in enumerate(sizes):
@@ -234,7 +239,7 @@ def plan(tier, seed):
                        "values of one variant, equality implies an identical hash byte stream (recorded by a deterministic Hasher defined "
                        "in the harness); hashing is total; MechSet::from_vec bookkeeping on three symbolic elements",
         "bounds": "two values per query, all bit patterns; strings 1 byte; tuples of 2; matrices 1x2; sets of 2 (order) and 3 (from_vec)",
-        "outside": ["IndexSet/hashbrown internals beyond the instances above", "set operators on elements other than u8 and on sets larger than 2", "set comprehensions and the kind check of "
+        "outside": ["IndexSet/hashbrown internals beyond the instances above", "the set operator kernels of machines/set (union, intersection, difference, symmetric difference, subset, superset, membership): harnesses exist (VERIF_C14_SETOPS=1) but get no verdict - heap-resident Values lose their enum tag for CBMC; only the Hash/Eq contract they rely on is decided", "set comprehensions and the kind check of "
                     "set literals (interpreter level)", "sets with more than 3 elements"],
         "caps": {"quick_timeout": 600, "thorough_timeout": 1500},
     }
